@@ -77,7 +77,7 @@ fn gen_body(r: &mut Rng, p: &Prog, fidx: usize, param: K, ncaps: usize, len: usi
             continue;
         }
         let top = st.last().cloned();
-        let choice = r.below(30);
+        let choice = r.below(33);
         match choice {
             0..=2 => {
                 out.push(Instruction::Constant(*r.pick(&ints)));
@@ -284,11 +284,36 @@ fn gen_body(r: &mut Rng, p: &Prog, fidx: usize, param: K, ncaps: usize, len: usi
                     return out;
                 }
             }
+            30..=32 => {
+                // select macro: sources, optional tuple, Select
+                let k = 1 + r.usize(3);
+                for _ in 0..k {
+                    match r.below(6) {
+                        0 | 1 | 2 => {
+                            let f = RECV_BASE + r.usize(6);
+                            if f == 8 {
+                                out.push(Instruction::Constant(*r.pick(&bins)));
+                            }
+                            out.push(Instruction::Function(f));
+                        }
+                        3 => out.push(Instruction::Constant(*r.pick(&ints))),
+                        _ => out.push(Instruction::Process(*r.pick(&[1usize, 2, 2, 60]), 1)),
+                    }
+                }
+                if k > 1 || r.chance(1, 2) {
+                    out.push(Instruction::Tuple(match k { 1 => 4, 2 => 2, _ => 3 }));
+                }
+                out.push(Instruction::Select);
+                st.push(K::Any);
+            }
             _ => {}
         }
     }
     out
 }
+
+/// ids of the receive functions appended after the ordinary ones
+const RECV_BASE: usize = 4;
 
 fn gen_prog(r: &mut Rng) -> Prog {
     let nfuncs = 4;
@@ -313,7 +338,53 @@ fn gen_prog(r: &mut Rng) -> Prog {
         let body = gen_body(r, &p, i, if i == 0 { K::Tup(vec![]) } else { K::Any }, caps[i], len, nfuncs);
         p.functions[i].instructions = body;
     }
+    // receive functions: 4 = type-only (no body, binaries), 5 = always accepts (binaries, tuples),
+    // 6 = `Not` (rejects every non-nil message), 7 = accepts binaries (`IsType(1)`), 8 = closure
+    // over a binary whose verdict is the captured binary, 9 = always accepts, binaries only
+    let int0 = (0..p.constants.len()).find(|i| matches!(p.constants[*i], Constant::Integer(_))).unwrap();
+    p.functions.push(Function { instructions: vec![], captures: 0, type_id: 4 });
+    p.functions.push(Function { instructions: vec![Instruction::Pop, Instruction::Constant(int0)], captures: 0, type_id: 5 });
+    p.functions.push(Function { instructions: vec![Instruction::Not], captures: 0, type_id: 6 });
+    p.functions.push(Function { instructions: vec![Instruction::IsType(1)], captures: 0, type_id: 7 });
+    p.functions.push(Function { instructions: vec![Instruction::Pop, Instruction::Load(0)], captures: 1, type_id: 8 });
+    p.functions.push(Function { instructions: vec![Instruction::Pop, Instruction::Constant(int0)], captures: 0, type_id: 9 });
     p
+}
+
+/// `function_param_compatibility` and its rendering for the model
+fn param_compat(p: &Prog) -> (Vec<HashSet<ConcreteType>>, String) {
+    let mut all: HashSet<ConcreteType> = HashSet::new();
+    all.insert(ConcreteType::Integer);
+    all.insert(ConcreteType::Binary);
+    all.insert(ConcreteType::Reference);
+    for t in 0..p.arities.len() {
+        all.insert(ConcreteType::Tuple(t));
+    }
+    for f in 0..p.functions.len() {
+        all.insert(ConcreteType::Function(f));
+        all.insert(ConcreteType::Process(f));
+    }
+    for b in 0..BUILTIN_NAMES.len() {
+        all.insert(ConcreteType::Builtin(b));
+    }
+    let mut v = vec![];
+    let mut s = vec![];
+    let mut bt: HashSet<ConcreteType> = (0..p.arities.len()).map(ConcreteType::Tuple).collect();
+    bt.insert(ConcreteType::Binary);
+    let mut bti = bt.clone();
+    bti.insert(ConcreteType::Integer);
+    for f in 0..p.functions.len() {
+        let (set, txt) = match f {
+            4 | 9 => ([ConcreteType::Binary].into_iter().collect(), "bin"),
+            5 => (bt.clone(), "bin tuple"),
+            8 => (bti.clone(), "bin tuple int"),
+            _ => (all.clone(), "int bin tuple func builtin proc ref"),
+        };
+        v.push(set);
+        s.push(format!("({f} {txt})"));
+    }
+    let empty: Vec<String> = (0..p.functions.len()).filter(|f| p.functions[*f].instructions.is_empty()).map(|f| f.to_string()).collect();
+    (v, format!("(receivers (fcompat {}) (empty {}))", s.join(" "), empty.join(" ")))
 }
 
 fn mk_update(p: &Prog) -> ProgramUpdate {
@@ -325,7 +396,7 @@ fn mk_update(p: &Prog) -> ProgramUpdate {
         builtins: BUILTIN_NAMES.iter().map(|n| BuiltinInfo { name: n.to_string(), param_type: 0, result_type: 0 }).collect(),
         resources: vec![],
         type_compatibility: p.type_compat.clone(),
-        function_param_compatibility: vec![],
+        function_param_compatibility: param_compat(p).0,
         builtin_param_compatibility: vec![],
         canonical_tuples: (0..p.arities.len()).collect(),
     }
@@ -348,7 +419,7 @@ fn hexa(b: &[u8]) -> String {
     if b.is_empty() { "-".to_string() } else { qverif::hex(b) }
 }
 
-fn render_instr(i: &Instruction, p: &Prog, frame_counter: usize, stack_top: Option<&Value>, started_with: Option<usize>) -> String {
+fn render_instr(i: &Instruction, p: &Prog, frame_counter: usize, stack_top: Option<&Value>, started_with: Option<usize>, now: u64) -> String {
     match i {
         Instruction::Constant(k) => match p.constants.get(*k) {
             Some(Constant::Integer(z)) => format!("(const-int {k} {z})"),
@@ -391,8 +462,23 @@ fn render_instr(i: &Instruction, p: &Prog, frame_counter: usize, stack_top: Opti
             Some(f) => format!("(self {f})"),
             None => "(self none)".into(),
         },
-        Instruction::Select => "select".into(),
+        Instruction::Select => format!("(select {now})"),
         Instruction::Process(a, b) => format!("(procref {a} {b})"),
+    }
+}
+
+/// a value whose heap binaries index the accompanying heap list, in the model's syntax
+fn render_transfer(v: &Value) -> String {
+    match v {
+        Value::Integer(z) => format!("(i {z})"),
+        Value::Binary(Binary::Heap(j)) => format!("(h {j})"),
+        Value::Binary(Binary::Constant(k)) => format!("(c {k})"),
+        Value::Reference(r) => format!("(r {r})"),
+        Value::Tuple(id, fs) => format!("(t {id}{})", fs.iter().map(|f| format!(" {}", render_transfer(f))).collect::<String>()),
+        Value::Function(id, fs) => format!("(f {id}{})", fs.iter().map(|f| format!(" {}", render_transfer(f))).collect::<String>()),
+        Value::Builtin(k) => format!("(bi {k})"),
+        Value::Process(a, b) => format!("(p {a} {b})"),
+        Value::Resource(a, b) => format!("(res {a} {b})"),
     }
 }
 
@@ -494,7 +580,9 @@ pub fn run_case(r: &mut Rng, b: &Builtins, model: &mut Model, ev: &mut Ev, case:
     };
     ask(model, &mut trace, "(init)".into());
     ask(model, &mut trace, format!("(program (canon {}) (builtins {}))", (0..p.arities.len()).map(|x| x.to_string()).collect::<Vec<_>>().join(" "), BUILTIN_NAMES.join(" ")));
+    ask(model, &mut trace, param_compat(&p).1);
     let persistent = r.chance(1, 4);
+    let mut now: u64 = 0;
     let _ = ex.spawn_process(0, Some(0), vec![], Value::nil(), vec![], persistent);
     ask(model, &mut trace, format!("(spawn-process 0 0 () (t 0) () {})", if persistent { 1 } else { 0 }));
     let mut shadow = oracle::Shadow::default();
@@ -510,9 +598,77 @@ pub fn run_case(r: &mut Rng, b: &Builtins, model: &mut Model, ev: &mut Ev, case:
         )
     };
     for _ in 0..400 {
+        // a binary message for a process whose filter call is in flight (the F7 window)
+        {
+            let mid: Vec<usize> = (0..next_pid)
+                .filter(|q| ex.get_process(*q).and_then(|p| p.select_state.as_ref().map(|s| s.receiving.is_some())).unwrap_or(false))
+                .collect();
+            if !mid.is_empty() && r.chance(1, 3) {
+                let target = *r.pick(&mid);
+                let n = 1 + r.usize(3);
+                let bytes = r.bytes(n);
+                let _ = ex.notify_message(target, Value::Binary(Binary::Heap(0)), vec![bytes.clone()]);
+                let a = ask(model, &mut trace, format!("(notify-message {target} (h 0) ({}))", hexa(&bytes)));
+                ev.hit("event:message-during-filter");
+                let (_, mv) = model_view(&a);
+                let iv = oracle::canon_view(&ex);
+                if mv != iv {
+                    return Err(fail("lockstep op=notify_message kind=view", format!("model {mv} impl {iv}"), &trace, false));
+                }
+            }
+        }
+        // the REPL cycle: a finished persistent process is resumed with another function
+        if persistent
+            && r.chance(1, 3)
+            && ex.get_process(0).map(|p| matches!(p.result, Some(Ok(_))) && p.frames.is_empty()).unwrap_or(false)
+            && !ex.verif_queue().contains(&0)
+        {
+            let fi = 1 + r.usize(3);
+            if p.functions[fi].captures == 0 {
+                // what `Worker::resume_process` does
+                let pr = ex.get_process_mut(0).unwrap();
+                let v = pr.result.take().unwrap().unwrap();
+                pr.stack.push(v);
+                pr.frames.push(quiver_core::process::Frame::new(fi, 0, 0));
+                ex.set_process_function_index(0, fi);
+                ex.add_to_queue(0);
+                let a = ask(model, &mut trace, format!("(resume 0 {fi})"));
+                ev.hit("event:resume_process");
+                let (_, mv) = model_view(&a);
+                let iv = oracle::canon_view(&ex);
+                if mv != iv {
+                    return Err(fail("lockstep op=resume_process kind=view", format!("model {mv} impl {iv}"), &trace, false));
+                }
+            }
+        }
         // external events between slices
         if r.chance(1, 12) {
-            match r.below(4) {
+            match r.below(6) {
+                4 => {
+                    // a result for (awaiter, awaited) — stored only if the awaiter's select still
+                    // awaits the target
+                    let (v, s, heap) = gen_transfer(r);
+                    let awaiter = r.usize(next_pid);
+                    let awaited = *r.pick(&[1usize, 2, 60]);
+                    let _ = ex.notify_result(awaiter, awaited, v, heap.clone());
+                    let a = ask(model, &mut trace, format!("(notify-result {awaiter} {awaited} {s} {})", heap_sx(&heap)));
+                    ev.hit("event:notify_result");
+                    let (_, mv) = model_view(&a);
+                    let iv = oracle::canon_view(&ex);
+                    if mv != iv {
+                        return Err(fail("lockstep op=notify_result kind=view", format!("model {mv} impl {iv}"), &trace, false));
+                    }
+                    if let Err((kind, detail)) = oracle::check(&ex, &mut shadow) {
+                        return Err(fail(&format!("oracle kind={kind} path=lockstep"), detail, &trace, true));
+                    }
+                }
+                5 => {
+                    let awaiter = r.usize(next_pid);
+                    let awaited = *r.pick(&[1usize, 2, 60]);
+                    ex.notify_failure(awaiter, awaited, quiver_core::Error::TupleEmpty);
+                    ask(model, &mut trace, format!("(notify-failure {awaiter} {awaited})"));
+                    ev.hit("event:notify_failure");
+                }
                 0 => {
                     let (v, s, heap) = gen_transfer(r);
                     let target = r.usize(next_pid);
@@ -602,7 +758,10 @@ pub fn run_case(r: &mut Rng, b: &Builtins, model: &mut Model, ev: &mut Ev, case:
             }
         };
         let frames_before = ex.get_process(pid).unwrap().frames.len();
-        let step = qverif::catch(|| ex.step(1000, 0));
+        if r.chance(1, 6) {
+            now += r.below(4);
+        }
+        let step = qverif::catch(|| ex.step(1000, now));
         steps += 1;
         let action = match step {
             Ok((_, a)) => a,
@@ -616,7 +775,7 @@ pub fn run_case(r: &mut Rng, b: &Builtins, model: &mut Model, ev: &mut Ev, case:
         match instr {
             Some(i) => {
                 ev.hit(&format!("instr:{}", instr_name(&i)));
-                last = ask(model, &mut trace, format!("(i {pid} {})", render_instr(&i, &p, counter, top.as_ref(), ex.get_process_function_indices().get(&pid).copied())));
+                last = ask(model, &mut trace, format!("(i {pid} {})", render_instr(&i, &p, counter, top.as_ref(), ex.get_process_function_indices().get(&pid).copied(), now)));
                 if last.starts_with("bad-request") {
                     return Err(fail("lockstep kind=bad-request", last.clone(), &trace, false));
                 }
@@ -627,7 +786,7 @@ pub fn run_case(r: &mut Rng, b: &Builtins, model: &mut Model, ev: &mut Ev, case:
                 model_frames = frames_before;
             }
         }
-        let (mout, _) = model_view(&last);
+        let mout: String = model_view(&last).0.to_string();
         let mut model_failed = mout == "fail";
         let pr = ex.get_process(pid).unwrap();
         let impl_failed = matches!(pr.result, Some(Err(_)));
@@ -656,6 +815,23 @@ pub fn run_case(r: &mut Rng, b: &Builtins, model: &mut Model, ev: &mut Ev, case:
         }
         if impl_failed {
             ev.hit("outcome:error");
+        }
+        if matches!(instr, Some(Instruction::Select)) {
+            let sel = pr.select_state.as_ref();
+            let k = if impl_failed {
+                "fail"
+            } else if mout.starts_with("act await") {
+                "await"
+            } else if mout == "wait" {
+                "wait"
+            } else if sel.map(|s| s.receiving.is_some()).unwrap_or(false) && pr.frames.len() > frames_before {
+                "filter-called"
+            } else if sel.is_none() {
+                "completed"
+            } else {
+                "other"
+            };
+            ev.hit(&format!("select:{k}"));
         }
         let (_, mv) = model_view(&last);
         let iv = oracle::canon_view(&ex);
@@ -701,6 +877,34 @@ pub fn run_case(r: &mut Rng, b: &Builtins, model: &mut Model, ev: &mut Ev, case:
             Some(quiver_core::Action::Deliver { value, .. }) => {
                 ev.hit("action:deliver");
                 let _ = ex.extract_heap_data(&value);
+            }
+            Some(quiver_core::Action::Await { targets, caller }) => {
+                ev.hit("action:await");
+                // what `Worker::query_and_await` + `update_await_results` do on one worker
+                for t in targets {
+                    let res = ex.get_process(t).and_then(|p| p.result.clone());
+                    match res {
+                        Some(Ok(v)) => {
+                            if let Ok((v2, heap)) = ex.extract_heap_data(&v) {
+                                let _ = ex.notify_result(caller, t, v2.clone(), heap.clone());
+                                let a = ask(model, &mut trace, format!("(notify-result {caller} {t} {} {})", render_transfer(&v2), heap_sx(&heap)));
+                                ev.hit("await:result");
+                                let (_, mv) = model_view(&a);
+                                let iv = oracle::canon_view(&ex);
+                                if mv != iv {
+                                    return Err(fail("lockstep op=await-result kind=view", format!("model {mv} impl {iv}"), &trace, false));
+                                }
+                            }
+                        }
+                        Some(Err(e)) => {
+                            ex.notify_failure(caller, t, e);
+                            ask(model, &mut trace, format!("(notify-failure {caller} {t})"));
+                            ev.hit("await:failure");
+                        }
+                        None => ev.hit("await:pending"),
+                    }
+                }
+                ex.wake_selecting(caller);
             }
             _ => {}
         }
